@@ -46,7 +46,6 @@ STRUCTURAL_SETTERS = {
 # stored settable properties deliberately absent from the unset map, with the reason given in the source
 NO_UNSET_EXCEPTIONS = {
     'image_type': 'fate-shares with image_ref (packed into ImageRef; commented in the source)',
-    'stitch_node': 'boolean that is always present by design',
 }
 ELEMENTS = {
     'fim.user.node:Node': 'node', 'fim.user.component:Component': 'component',
